@@ -135,7 +135,11 @@ def layout_relativize(c):
     """Layout.as_percentage_of relativizes origin, extent and padding with (width, height) and keeps
     the alignment"""
     L = mk_layout(c, "a")
-    W, H = c.int("W", 1, 10 ** 5), c.int("H", 1, 10 ** 5)
+    # (one dimension may be missing: whether that matters is for the parts to say, axis by axis - a layout whose
+    # absolute lengths all lie on the axis that WAS supplied is written)
+    given = c.pick("dimensions_given", ["both", "width only", "height only", "none"]) if c.symbolic else "both"
+    W = c.int("W", 1, 10 ** 5) if given in ("both", "width only") else None
+    H = c.int("H", 1, 10 ** 5) if given in ("both", "height only") else None
     r = c.call(Layout.as_percentage_of, L, W, H, compare=False)
     c.ensure("is_layout", type(r) is Layout)
     c.ensure("alignment_kept", r.alignment is L.alignment)
@@ -325,6 +329,45 @@ def expected_pct(v, unit, W, H, horizontal):
     return float(px * 100 / dim)
 
 
+def bounded_one_dimension(ctx, b):
+    """only one video dimension supplied: lengths on that axis are converted, percentages on the other axis pass
+    through, an absolute length on the other axis is refused; writers configured by position as well as by keyword"""
+    PX, PC = UnitEnum.PIXEL, UnitEnum.PERCENT
+    for axis in ("width", "height"):
+        for other_absolute in (False, True):
+            hx, vy = (PX, PX if other_absolute else PC) if axis == "width" else (PX if other_absolute else PC, PX)
+            L = Layout(origin=Point(Size(64 if hx is PX else 10, hx), Size(36 if vy is PX else 10, vy)),
+                       padding=Padding(before=Size(18 if vy is PX else 5, vy), after=Size(18 if vy is PX else 5, vy),
+                                       start=Size(32 if hx is PX else 5, hx), end=Size(32 if hx is PX else 5, hx)))
+            W, H = (640, None) if axis == "width" else (None, 360)
+            for level in ("node", "caption", "language"):
+                node = CaptionNode.create_text("x", layout_info=L if level == "node" else None)
+                cs = CaptionSet({"en": CaptionList([Caption(0, 10 ** 6, [node], layout_info=L if level == "caption" else None)],
+                                                   layout_info=L if level == "language" else None)})
+                for Wr in (DFXPWriter, SAMIWriter, WebVTTWriter):
+                    for positional in (False, True):
+                        # (a text node's own layout is written by WebVTT only; SAMI writes the language's paddings)
+                        writes_it = Wr is WebVTTWriter or level == "language" or (Wr is DFXPWriter and level == "caption")
+                        if not writes_it:
+                            continue
+
+                        def one(Wr=Wr, cs=cs, W=W, H=H, other_absolute=other_absolute, positional=positional):
+                            w = Wr(True, W, H, False) if positional else Wr(relativize=True, video_width=W, video_height=H, fit_to_screen=False)
+                            try:
+                                out = w.write(cs)
+                            except RelativizationError:
+                                return other_absolute, {"refused_although_every_absolute_length_lies_on_the_supplied_axis": True}
+                            if other_absolute:
+                                return False, {"written_although_a_needed_dimension_is_missing": out[:500]}
+                            lens = re.findall(r'(?:tts:origin|tts:padding)="([^"]*)"', out) + re.findall(r"(?:position|line|size):(\S+)", out) + \
+                                re.findall(r"margin-(?:top|right|bottom|left): ([^;]+);", out)
+                            toks = sorted({t for x in lens for t in x.split()})
+                            return bool(toks) and all(t in ("10%", "5%", "15%", "80%", "70%") for t in toks), {"lengths_written": toks, "output": out[:500]}
+                        b.guard(("one_dimension", axis, other_absolute, level, Wr.__name__, positional), one,
+                                sample={"supplied": axis, "absolute_length_on_the_other_axis": other_absolute, "level": level, "writer": Wr.__name__,
+                                        "writer_configured_by_position": positional})
+
+
 def bounded_writers(ctx, b):
     rng = random.Random(ctx.seed)
     # (127.99 of 640 is 19.998%: rounds to a whole number without being one; 0.01 of 640 rounds to 0)
@@ -466,6 +509,10 @@ def run(ctx):
       functions=[WebVTTWriter._convert_positioning], contracts=WEBVTT_PARTS)
     import props.C13_levels as LV
     LV.prove_levels(ctx)
+    ctx.bounded("one_dimension", "layouts with pixel lengths on one axis and percentages (or pixels) on the other, only that axis' "
+                "video dimension supplied, at three levels x DFXP/SAMI/WebVTT writers configured by keyword and by position: "
+                "written as 10% / 5% (position 15%, size 70-80%), refused exactly when the other axis needs its dimension",
+                lambda b: bounded_one_dimension(ctx, b))
     ctx.bounded("writers", "layouts with one unit (5 units) x value grid x video sizes (both, none, one of two, square, "
                 "portrait) x attachment level x fit_to_screen x DFXP/SAMI/WebVTT writers: every written length is a "
                 "percentage with the exact two-decimal value, or the writer refuses; fit-to-screen edges",
